@@ -155,10 +155,10 @@ def startsStmt (code s : GoStr) : Bool :=
      | [] => true
      | c :: _ => !(c == 95 || c ≥ 128 || (48 ≤ c && c ≤ 57) || (97 ≤ c && c ≤ 122) || (65 ≤ c && c ≤ 90)))
 
-/-- a `- statement` opens a block when it has nested nodes, or is a control-flow line written without its brace -/
+/-- a `- statement` opens a block when it has nested nodes, or is a control-flow line (with or without its brace) -/
 def silentHasBlock (o : Tok) (kids : List Node) : Bool :=
   let code := trimSpace o.lit
-  !kids.isEmpty || ((Gen.openingStatements.any fun s => startsStmt code s) && !hasSuffix code [123])
+  !kids.isEmpty || (Gen.openingStatements.any fun s => startsStmt code s)
 
 def isSilent : Node → Option GoStr
   | .silent o _ _ => some o.lit
